@@ -36,6 +36,7 @@ import (
 	"hash/fnv"
 	"math/rand/v2"
 	"reflect"
+	"runtime/debug"
 	"sort"
 	"strings"
 	"testing"
@@ -167,6 +168,19 @@ func c06Tuple(s *machine.ChannelState) c06FenceTuple {
 	return c06FenceTuple{s.Epoch, s.LeaderEpoch, s.Leader, s.Role, s.Status}
 }
 
+// c06Snap is the cheap pre-transition snapshot used by the watermark monitor
+// (ApplyMeta replaces the membership slices, it never edits them in place).
+type c06Snap struct {
+	tuple    c06FenceTuple
+	HW, LEO  uint64
+	Replicas []ch.NodeID
+	ISR      []ch.NodeID
+}
+
+func c06Snapshot(s *machine.ChannelState) c06Snap {
+	return c06Snap{tuple: c06Tuple(s), HW: s.HW, LEO: s.LEO, Replicas: s.Replicas, ISR: s.ISR}
+}
+
 // c06Ent is one trace entry; formatting is deferred until a witness or a
 // sample is written (arguments are never mutated after logging).
 type c06Ent struct {
@@ -233,7 +247,7 @@ func (c *c06Case) violate(sig string, detail string) {
 
 // afterStep runs the watermark monitor. before is the normalised clone taken
 // before the transition.
-func (c *c06Case) afterStep(before *machine.ChannelState) {
+func (c *c06Case) afterStep(before c06Snap) {
 	s := c.s
 	c.r.Count("monitor.states_checked", 1)
 	if s.CheckpointHW > s.HW {
@@ -248,7 +262,7 @@ func (c *c06Case) afterStep(before *machine.ChannelState) {
 		c.violate("watermark-order:CheckInvariants", err.Error())
 		return
 	}
-	if c06Tuple(before) == c06Tuple(s) {
+	if before.tuple == c06Tuple(s) {
 		if s.HW < before.HW {
 			c.violate("hw-decreased-within-fence", fmt.Sprintf("HW %d -> %d", before.HW, s.HW))
 			return
@@ -278,7 +292,7 @@ func (c *c06Case) quorumBound() (uint64, bool) {
 	return ms[s.MinISR-1], true
 }
 
-func (c *c06Case) checkHWAdvance(before *machine.ChannelState, site string) {
+func (c *c06Case) checkHWAdvance(before c06Snap, site string) {
 	if c.bad || c.s.HW <= before.HW {
 		return
 	}
@@ -580,7 +594,8 @@ func (c *c06Case) stepMeta() {
 	}
 	fenceChange := s.Epoch != meta.Epoch || s.LeaderEpoch != meta.LeaderEpoch || s.Leader != meta.Leader || s.Role != nextRole || s.Status != meta.Status
 
-	before := c06Clone(s)
+	full := c06Clone(s)
+	before := c06Snapshot(s)
 	var d machine.Decision
 	if c.r.Guard("ApplyMeta", c.calling("ApplyMeta(%+v)", meta), func() { d = s.ApplyMeta(meta) }) {
 		c.bad = true
@@ -599,15 +614,15 @@ func (c *c06Case) stepMeta() {
 		c.sawStaleMeta = true
 		c.r.Count("meta.stale_offered", 1)
 		if d.Err == nil {
-			c.violate("stale-meta-accepted:"+kind, fmt.Sprintf("state had E%d/LE%d leader=%d; meta E%d/LE%d leader=%d accepted", before.Epoch, before.LeaderEpoch, before.Leader, meta.Epoch, meta.LeaderEpoch, meta.Leader))
+			c.violate("stale-meta-accepted:"+kind, fmt.Sprintf("state had E%d/LE%d leader=%d; meta E%d/LE%d leader=%d accepted", full.Epoch, full.LeaderEpoch, full.Leader, meta.Epoch, meta.LeaderEpoch, meta.Leader))
 			return
 		}
 		if !errors.Is(d.Err, ch.ErrStaleMeta) {
 			c.violate("stale-meta-wrong-error:"+kind, fmt.Sprintf("err=%v", d.Err))
 			return
 		}
-		if !reflect.DeepEqual(before, c06Clone(s)) {
-			c.violate("stale-meta-changed-state:"+kind, fmt.Sprintf("before: %+v", before))
+		if !reflect.DeepEqual(full, c06Clone(s)) {
+			c.violate("stale-meta-changed-state:"+kind, fmt.Sprintf("before: %+v", full))
 			return
 		}
 	}
@@ -710,7 +725,7 @@ func (c *c06Case) stepPropose() {
 		}
 		mine = append(mine, &c06Waiter{op: w.OpID, mode: mode, omit: w.OmitResultPayload, recs: c06CloneRecords(w.Records)})
 	}
-	before := c06Clone(s)
+	before := c06Snapshot(s)
 	var d machine.Decision
 	if c.r.Guard("ProposeAppend", c.calling("Propose single=%v %+v", single, cmd), func() {
 		if single {
@@ -850,7 +865,11 @@ func (c *c06Case) deliver(res *c06Result, fence ch.Fence, how string) {
 		c.r.Count("deliver.matching_fence_of_other_batch_skipped", 1)
 		return
 	}
-	before := c06Clone(s)
+	var full *machine.ChannelState
+	if !matches {
+		full = c06Clone(s)
+	}
+	before := c06Snapshot(s)
 	var d machine.Decision
 	site := "stored"
 	if res.receipt {
@@ -889,8 +908,8 @@ func (c *c06Case) deliver(res *c06Result, fence ch.Fence, how string) {
 			c.violate("stale-fence-result-produced-output:"+site+":"+how, fmt.Sprintf("decision=%+v", d))
 			return
 		}
-		if !reflect.DeepEqual(before, c06Clone(s)) {
-			c.violate("stale-fence-result-changed-state:"+site+":"+how, fmt.Sprintf("before: LEO=%d HW=%d inflight=%v pending=%d", before.LEO, before.HW, before.InflightAppend != nil, len(before.PendingAppends)))
+		if !reflect.DeepEqual(full, c06Clone(s)) {
+			c.violate("stale-fence-result-changed-state:"+site+":"+how, fmt.Sprintf("before: LEO=%d HW=%d inflight=%v pending=%d", full.LEO, full.HW, full.InflightAppend != nil, len(full.PendingAppends)))
 			return
 		}
 		c.afterStep(before)
@@ -1062,7 +1081,7 @@ func (c *c06Case) stepAck() {
 	if off > c.m.acked[f] {
 		c.m.acked[f] = off
 	}
-	before := c06Clone(s)
+	before := c06Snapshot(s)
 	var d machine.Decision
 	if c.r.Guard("ApplyFollowerAck", c.calling("ApplyFollowerAck(follower=%d off=%d)", f, off), func() {
 		d = s.ApplyFollowerAck(machine.FollowerAck{Follower: f, MatchOffset: off})
@@ -1103,7 +1122,7 @@ func (c *c06Case) stepCancel() {
 	} else {
 		op = ch.OpID(1 + rng.IntN(10))
 	}
-	before := c06Clone(s)
+	before := c06Snapshot(s)
 	var ok bool
 	if c.r.Guard("CancelAppendWaiter", c.calling("CancelAppendWaiter(%d)", op), func() { ok = s.CancelAppendWaiter(op) }) {
 		c.bad = true
@@ -1134,7 +1153,7 @@ func (c *c06Case) stepAbort() {
 	} else {
 		bop = ch.OpID(1 + rng.IntN(8))
 	}
-	before := c06Clone(s)
+	before := c06Snapshot(s)
 	if c.r.Guard("AbortAppendBatchProposal", c.calling("AbortAppendBatchProposal(%d)", bop), func() { s.AbortAppendBatchProposal(bop) }) {
 		c.bad = true
 		return
@@ -1168,7 +1187,7 @@ func (c *c06Case) stepCheckpoint() {
 	if s.HW <= s.CheckpointHW {
 		return
 	}
-	before := c06Clone(s)
+	before := c06Snapshot(s)
 	s.CheckpointHW += 1 + uint64(c.rng.IntN(int(s.HW-s.CheckpointHW)))
 	c.logf("K", "checkpoint published CP=%d", s.CheckpointHW)
 	c.r.Count("events.checkpoint", 1)
@@ -1257,6 +1276,8 @@ func TestVerifC06Machine(t *testing.T) {
 	r.Assume("follower acks carry offsets <= LEO (documented machine precondition, enforced by the reactor; unit 'service' attacks that guard)")
 	r.Assume("stored offsets come from a store model: base = store LEO + 1, last = base + n - 1; a batch op id is proposed at most once per (epoch, leader epoch)")
 	r.Assume("an accepted meta that changes (epoch, leader epoch, leader, role, status) answers all outstanding appends (the reactor fails them with ErrStaleMeta before applying it), so a later machine reply for one of them is a second answer")
+	// The live heap is tiny and every step allocates; without this the run is dominated by GC cycles.
+	defer debug.SetGCPercent(debug.SetGCPercent(1600))
 	n := r.N(12_000, 300_000)
 	for i := 0; i < n; i++ {
 		if r.Skip(i) {
